@@ -43,6 +43,9 @@ pub struct QSpec {
     pub include_empty: bool,
     pub offset: u64,
     pub limit: Option<u64>,
+    /// permutation (Lehmer code) of the builder calls offset / author / key filter / include-empty / limit / sort
+    #[serde(default)]
+    pub order: u16,
 }
 
 #[derive(Serialize, Deserialize, Clone, Debug)]
@@ -93,6 +96,7 @@ fn gen_q(rng: &mut Rng, g: &GenCfg, items: &[Ent]) -> QSpec {
         include_empty: rng.chance(1, 2),
         offset: if rng.chance(1, 2) { 0 } else { rng.below(4) },
         limit: if rng.chance(1, 2) { None } else { Some(rng.below(5)) },
+        order: if rng.chance(1, 2) { 0 } else { rng.below(720) as u16 },
     }
 }
 
@@ -186,30 +190,52 @@ impl Scenario for QueryScen {
 fn build_query(q: &QSpec) -> Query {
     let w = world();
     let dir = if q.desc { SortDirection::Desc } else { SortDirection::Asc };
-    macro_rules! common {
-        ($b:expr) => {{
-            let mut b = $b.offset(q.offset);
-            if let Some(a) = q.author {
-                b = b.author(w.author_id(a));
-            }
-            match &q.kf {
-                KeyF::Any => {}
-                KeyF::Exact(k) => b = b.key_exact(k),
-                KeyF::Prefix(k) => b = b.key_prefix(k),
-            }
-            if q.include_empty {
-                b = b.include_empty();
-            }
-            if let Some(l) = q.limit {
-                b = b.limit(l);
+    // the builder calls are made in a plan-chosen order (a builder method must not undo another)
+    let mut calls: Vec<u8> = vec![0, 1, 2, 3, 4, 5];
+    let mut code = q.order as usize;
+    let mut order: Vec<u8> = Vec::new();
+    while !calls.is_empty() {
+        let i = code % calls.len();
+        code /= calls.len();
+        order.push(calls.remove(i));
+    }
+    macro_rules! apply {
+        ($b:expr, $sort:expr) => {{
+            let mut b = $b;
+            for c in &order {
+                b = match c {
+                    0 => b.offset(q.offset),
+                    1 => match q.author {
+                        Some(a) => b.author(w.author_id(a)),
+                        None => b,
+                    },
+                    2 => match &q.kf {
+                        KeyF::Any => b,
+                        KeyF::Exact(k) => b.key_exact(k),
+                        KeyF::Prefix(k) => b.key_prefix(k),
+                    },
+                    3 => {
+                        if q.include_empty {
+                            b.include_empty()
+                        } else {
+                            b
+                        }
+                    }
+                    4 => match q.limit {
+                        Some(l) => b.limit(l),
+                        None => b,
+                    },
+                    _ => $sort(b),
+                };
             }
             b
         }};
     }
     if q.latest {
-        common!(Query::single_latest_per_key().sort_direction(dir)).build()
+        apply!(Query::single_latest_per_key(), |b: iroh_docs::store::QueryBuilder<iroh_docs::store::SingleLatestPerKeyQuery>| b.sort_direction(dir)).build()
     } else {
-        common!(Query::all().sort_by(if q.by_key { SortBy::KeyAuthor } else { SortBy::AuthorKey }, dir)).build()
+        let sort = if q.by_key { SortBy::KeyAuthor } else { SortBy::AuthorKey };
+        apply!(Query::all(), |b: iroh_docs::store::QueryBuilder<iroh_docs::store::FlatQuery>| b.sort_by(sort, dir)).build()
     }
 }
 
